@@ -57,7 +57,24 @@ RECURSIVE ECat(_, _)
 ECat(sq, i) == IF i > Len(sq) THEN <<>> ELSE ExprPieces[sq[i]] \o ECat(sq, i + 1)
 ExprSet == {[kind |-> "program", entry |-> "main.go", src |-> ProgHead \o ProgOpen \o <<95, 32, 61, 32>> \o ECat(q, 1) \o <<120>> \o ProgClose] : q \in ExprSeqs}
      \cup {[kind |-> "template", entry |-> "index.html", src |-> <<97, 32, 123, 123, 32>> \o ECat(q, 1) \o <<120, 32, 125, 125>>] : q \in ExprSeqs}
-Cases == LET S == SetToSeq(CaseSet) E == SetToSeq(ExprSet) IN
+\* ---- third case space: Markdown templates, where the lexer has two more position-shifting rules of its own: the scheme of
+\* a URL (http://, https://) starts a URL context, and a tab or four spaces after a blank line start an indented code block
+MdPieces == <<
+    <<104, 116, 116, 112, 115, 58, 47, 47, 97, 46, 98, 47>>,
+    <<104, 116, 116, 112, 58, 47, 47, 97, 46, 98, 47, 63, 113, 61>>,
+    <<10, 10, 9>>,
+    <<10, 10, 32, 32, 32, 32>>,
+    <<97>>,
+    <<195, 169>>,
+    <<10>>,
+    <<9, 98>>,
+    <<32, 104, 116, 116, 112, 115, 58, 47, 47, 195, 169, 46, 98, 47, 32>> >>
+    \* 'https://a.b/' | 'http://a.b/?q=' | '\n\n\t' | '\n\n    ' | 'a' | 'é' | '\n' | '\tb' | ' https://é.b/ '
+MdSeqs == UNION {[1..n -> 1..Len(MdPieces)] : n \in 1..3}
+RECURSIVE MCat(_, _)
+MCat(sq, i) == IF i > Len(sq) THEN <<>> ELSE MdPieces[sq[i]] \o MCat(sq, i + 1)
+MdSet == {[kind |-> "template", entry |-> "index.md", src |-> MCat(q, 1) \o TmplErr[e]] : q \in MdSeqs, e \in {1, 4}}
+Cases == LET S == SetToSeq(CaseSet) E == SetToSeq(ExprSet \cup MdSet) IN
   [i \in 1..(Len(S) + Len(E)) |-> IF i <= Len(S) THEN [id |-> i, kind |-> S[i].kind, entry |-> S[i].entry, src |-> Source(S[i])]
                                    ELSE [id |-> i, kind |-> E[i - Len(S)].kind, entry |-> E[i - Len(S)].entry, src |-> E[i - Len(S)].src]]
 ASSUME ndJsonSerialize("cases.ndjson", Cases)
